@@ -219,7 +219,7 @@ fn c08_writer_one() {
     }
 }
 
-//@ harness: c08_writer_one_full props=C08 tier=thorough class=functional covers=1 mem=44 timeout=1500 est=400 args=-Z,restrict-vtable
+//@ harness: c08_writer_one_full props=C08 tier=thorough required=no class=functional covers=1 mem=44 timeout=1500 est=400 args=-Z,restrict-vtable
 //@ bounds: same with a fully symbolic 64-byte header, single flush
 #[kani::proof]
 #[kani::unwind(4)]
